@@ -283,7 +283,9 @@ def _td7(name, sc, use_checkpoints):
                  dict(comps=["policy_target", "q_target", "fixed_embedding"], counter="iter", mod=td, rem=0, after=warm)]
         rules += [dict(comps=["fixed_embedding_target"], counter="iter", mod=_BIG, rem=k, after=warm) for k in later]
     cfg = base_cfg(name, sc, warmlearn=warm, warmact=warm, explore_only_in_warmup=True, policy_probe=True, ret_applicable=True, ulpk=0,
-                   trained=["embedding", "q", "policy"], targets=targets, segment="sample", rules=rules)
+                   trained=["embedding", "q", "policy"], targets=targets, segment="sample", rules=rules,
+                   # coordinator: TD7's evaluation checkpoint is (fixed embedding, actor), copied together
+                   copy_groups=[[["actor_checkpoint", "policy"], ["fixed_embedding_checkpoint", "fixed_embedding"]]] if use_checkpoints else [])
     ret = None if res is None else res.global_step
     return finish(rec, name, sc, cfg, returned=ret, final=final_digests(**mods), error=_close(w, err))
 
